@@ -129,3 +129,57 @@ Proof.
   { apply vsum_map_ext. intros x _. unfold nsq. simpl. numR. ring. }
   numR. rewrite ?E1, ?E2. ring.
 Qed.
+
+(* ---- GDevice: s*p + poly(-s), p - poly'(-s), diag(poly''(-s)) ---- *)
+From DK.Proofs Require Import VecAlg.
+Lemma nth_vmul (a b : list R) i : (i < length a)%nat -> (i < length b)%nat -> nth i (vmul a b) 0 = nth i a 0 * nth i b 0.
+Proof.
+  revert b i; induction a as [|x a IH]; intros [|y b] i Ha Hb; simpl in *; try lia.
+  destruct i as [|i]; [reflexivity|]. apply IH; lia.
+Qed.
+Lemma idx_map_length (f : nat -> R -> R) (s : list R) : length (map (fun '(i, v) => f i v) (idx s)) = length s.
+Proof. apply map_idx_length. Qed.
+Lemma gk_nth (f : nat -> R -> R) (s : list R) k : (k < length s)%nat ->
+  nth k (map (fun '(i, v) => f i v) (idx (map (fun x => - x) s))) 0 = f k (- nth k s 0).
+Proof.
+  intros Hk. rewrite (nth_map_idx f) by (now rewrite map_length). f_equal.
+  rewrite (nth_indep _ 0 (- 0)) by (now rewrite map_length). now rewrite (map_nth (fun x => - x)).
+Qed.
+
+Lemma gen_gdevice_costv n g s p : length s = n -> length p = n ->
+  GDevice_costv (A:=R) n g s p = map (fun '(i, x) => x * nth i p 0 + horner (gpoly g i) (- x)) (idx s).
+Proof.
+  intros Hs Hp. first [reflexivity | unfold GDevice_costv, gk_val].
+  change (map2 (fun x y => x * y)%num s p) with (vmul s p). change (map2 (fun x y => x + y)%num) with (vadd (A:=R)).
+  apply list_eq_nth.
+  - rewrite vadd_length, vmul_length, (idx_map_length (fun i v => horner (gpoly g i) v)), map_length by lia.
+    rewrite (idx_map_length (fun i x => x * nth i p 0 + horner (gpoly g i) (- x))). lia.
+  - intros k Hk. rewrite vadd_length, vmul_length, (idx_map_length (fun i v => horner (gpoly g i) v)), map_length in Hk by lia.
+    rewrite nth_vadd by (rewrite ?vmul_length, ?(idx_map_length (fun i v => horner (gpoly g i) v)), ?map_length; lia).
+    rewrite nth_vmul by lia. rewrite (gk_nth (fun i v => horner (gpoly g i) v)) by lia.
+    rewrite (nth_map_idx (fun i x => x * nth i p 0 + horner (gpoly g i) (- x))) by lia. reflexivity.
+Qed.
+Lemma gen_gdevice_cost n g s p : length s = n -> length p = n -> GDevice_cost (A:=R) n g s p = gdev_cost g s p.
+Proof. intros Hs Hp. first [reflexivity | unfold GDevice_cost]. now rewrite (gen_gdevice_costv n g s p Hs Hp). Qed.
+Lemma gen_gdevice_deriv n g s p : length s = n -> length p = n -> GDevice_deriv (A:=R) n g s p = gdev_deriv g s p.
+Proof.
+  intros Hs Hp. first [reflexivity | unfold GDevice_deriv, gk_d1, gdev_deriv].
+  change (map2 (fun x y => x - y)%num) with (vsub (A:=R)).
+  apply list_eq_nth.
+  - rewrite vsub_length, (idx_map_length (fun i v => horner (pderiv (gpoly g i)) v)), map_length.
+    rewrite (idx_map_length (fun i x => nth i p 0 - horner (pderiv (gpoly g i)) (- x))). lia.
+  - intros k Hk. rewrite vsub_length, (idx_map_length (fun i v => horner (pderiv (gpoly g i)) v)), map_length in Hk.
+    rewrite nth_vsub by (rewrite ?(idx_map_length (fun i v => horner (pderiv (gpoly g i)) v)), ?map_length; lia).
+    rewrite (gk_nth (fun i v => horner (pderiv (gpoly g i)) v)) by lia.
+    rewrite (nth_map_idx (fun i x => nth i p 0 - horner (pderiv (gpoly g i)) (- x))) by lia. reflexivity.
+Qed.
+Lemma gen_gdevice_hess n g s : GDevice_hess (A:=R) n g s = gdev_hess g s.
+Proof.
+  first [reflexivity | unfold GDevice_hess, gk_d2, gdev_hess]. f_equal.
+  apply list_eq_nth.
+  - rewrite (idx_map_length (fun i v => horner (pderiv (pderiv (gpoly g i))) v)), map_length.
+    now rewrite (idx_map_length (fun i x => horner (pderiv (pderiv (gpoly g i))) (- x))).
+  - intros k Hk. rewrite (idx_map_length (fun i v => horner (pderiv (pderiv (gpoly g i))) v)), map_length in Hk.
+    rewrite (gk_nth (fun i v => horner (pderiv (pderiv (gpoly g i))) v)) by lia.
+    now rewrite (nth_map_idx (fun i x => horner (pderiv (pderiv (gpoly g i))) (- x))) by lia.
+Qed.
